@@ -8,7 +8,7 @@ dealer: "complaint answer was already received"), and an answer is only ever bro
 complaint - so the next copy of the same complaint meets the first theorem.  Property theorems only. -/
 
 namespace Props.C08
-open Model Model.Dkg Proofs.DkgCommute
+open Model Model.Dkg Proofs.DkgCommute Proofs.DkgAgree
 
 variable {O : Ops}
 
@@ -91,6 +91,74 @@ theorem dealer_answers_once_partial (k : Nat) (s : St O) (evs : List (Nat × Byt
         exact absurd hm (repeated_complaint_not_answered s o d c (hok ▸ h1) h2 m)
       · omega
 
+/-! ### the full event alphabet: every delivery (broadcast or private, any sender, any bytes) and the timeouts -/
+
+/-- at the dealer's own instance a registered complaint stays registered across every delivery -/
+theorem reg_step_dealer (s : St O) (hmd : s.me = s.dealer) (k : Nat) (e : Dl) (h : Reg s k) : Reg (step s e) k := by
+  cases e with
+  | priv o m => show Reg (FvssQ.privBody s o m).1 k; rw [dealer_priv_noop s hmd]; exact h
+  | bcast o m =>
+    show Reg (FvssQ.bcastBody s o m).1 k
+    rcases dealer_bcast_cases s hmd o m with h1 | ⟨h1, _⟩
+    · rw [h1]; exact registered_stays s k o _ h
+    · exact reg_congr _ _ _ h1 h
+
+/-- deliveries from `k` (any kind) that make the instance broadcast something, along a history of deliveries and timeouts -/
+def answersToEv (k : Nat) : St O → List Ev → Nat
+  | _, [] => 0
+  | s, ev :: r =>
+    (match ev with
+     | .dl e => if e.sender = k ∧ (stepOut s e).any isBcast then 1 else 0
+     | .timeout => 0) + answersToEv k (evStep s ev) r
+
+/-- **the dealer answers every complainer at most once**: along every history of deliveries and timeouts, from every
+    state of the dealer's own instance, at most one delivery sent by `k` makes the instance broadcast anything (that
+    broadcast is the answer of `dealer_answers`), and none once the complaint of `k` is registered.  With
+    `dealer_bcast_cases` / `dealer_priv_noop` (Proofs/DkgDealerOnce): at this instance only a complaint delivery
+    broadcasts at all, so "no second answer" holds for whatever the other participants send, in whatever order. -/
+theorem dealer_answers_once (k : Nat) (s : St O) (hmd : s.me = s.dealer) (evs : List Ev) :
+    answersToEv k s evs ≤ 1 ∧ (Reg s k → answersToEv k s evs = 0) := by
+  induction evs generalizing s with
+  | nil => simp [answersToEv]
+  | cons ev r ih =>
+    obtain ⟨r1, r2⟩ := ih (evStep s ev) (evStep_dealer s hmd ev)
+    simp only [answersToEv]
+    cases ev with
+    | timeout =>
+      simp only [Nat.zero_add]
+      exact ⟨r1, fun hreg => r2 (reg_tstep s k hreg)⟩
+    | dl e =>
+      simp only []
+      have hstay : Reg s k → Reg (step s e) k := reg_step_dealer s hmd k e
+      -- a broadcast at this delivery: it is a complaint delivery from k, unregistered before, registered after
+      have key : e.sender = k ∧ (stepOut s e).any isBcast = true → ¬ Reg s k ∧ Reg (step s e) k := by
+        rintro ⟨hs, hb⟩
+        obtain ⟨x, hx⟩ := (any_isBcast _).mp hb
+        cases e with
+        | priv o m =>
+          have : stepOut s (.priv o m) = [] := by
+            show (FvssQ.privBody s o m).2 = []; rw [dealer_priv_noop s hmd]
+          rw [this] at hx; cases hx
+        | bcast o m =>
+          have hso : o = k := hs
+          rcases dealer_bcast_cases s hmd o m with h1 | ⟨_, h2⟩
+          · have hx' : Out.bcast x ∈ (FvssQ.receiveComplaint s o (m.drop 1)).2 := by rw [← h1]; exact hx
+            obtain ⟨hn, c, hc1, hc2⟩ := answer_registers_complaint s o _ x hx'
+            refine ⟨?_, ?_⟩
+            · rintro ⟨c', hc', _⟩; rw [← hso, hn] at hc'; cases hc'
+            · show Reg (FvssQ.bcastBody s o m).1 k
+              rw [h1]; exact ⟨c, hso ▸ hc1, hc2⟩
+          · exact absurd hx (h2 x)
+      refine ⟨?_, ?_⟩
+      · split
+        · next hc => have := r2 (key hc).2; omega
+        · omega
+      · intro hreg
+        have h0 := r2 (hstay hreg)
+        split
+        · next hc => exact absurd hreg (key hc).1
+        · omega
+
 /-- non-vacuity: a state with the complaint of node 1 registered exists (so the second clause is not empty), and the
     initial table registers nothing (so the first clause starts from the reachable state) -/
 example (s : St O) : Reg (s.setC 1 { received := true, answerReceived := false }) 1 :=
@@ -102,3 +170,5 @@ end Props.C08
 #print axioms Props.C08.answer_registers_complaint
 #print axioms Props.C08.registered_stays
 #print axioms Props.C08.dealer_answers_once_partial
+#print axioms Props.C08.reg_step_dealer
+#print axioms Props.C08.dealer_answers_once
